@@ -392,12 +392,14 @@ def doSetCls (w : World) (k : ClsId) (x : Name) (lit : Lit) : World × Option Er
     | .error e => (w1, some e)
     | .ok cells2 => (({ w1 with cells := cells2 }).setOwn k x { p with default := v }, none)
 
+/-- `target.x` -/
+def World.read (w : World) : Target → Name → Option Val
+  | .inst i, x => w.getInst i x
+  | .cls k, x => w.getCls k x
+
 /-- `target.x.append(v)`: in-place mutation of the list the attribute evaluates to -/
 def doMutVal (w : World) (t : Target) (x : Name) (n : Int) : World × Option Err :=
-  let cur := match t with
-    | .inst i => w.getInst i x
-    | .cls k => w.getCls k x
-  match cur with
+  match w.read t x with
   | none => (w, some .unsupported)
   | some (.int _) => (w, some .attributeError)
   | some (.ref c) => ({ w with cells := w.cells.set c (deref w.cells c ++ [n]) }, none)
@@ -443,60 +445,67 @@ def dropSlot (s : Slot) (ms : List (Slot × CellId)) : List (Slot × CellId) :=
 def hasBounds (p : PObj) : Bool := p.kind = .number
 def hasObjects (p : PObj) : Bool := p.kind = .selector
 
-/-- `P.<slot> = value` -- src: parameterized.py Parameter.__setattr__, parameters.py Selector.objects setter -/
+/-- `P.<slot> = value` on Parameter object `p`: the new record and heap
+    -- src: parameterized.py Parameter.__setattr__, parameters.py Selector.objects setter -/
+def applySlotSet (cells : List (List Int)) (p : PObj) : SlotSet → Except Err (PObj × List (List Int))
+  | .boundsTup b =>
+    if hasBounds p then .ok ({ p with boundsTup := b, mslots := dropSlot .bounds p.mslots }, cells)
+    else .error .attributeError
+  | .boundsList lo hi =>
+    if hasBounds p then
+      .ok ({ p with boundsTup := none, mslots := dropSlot .bounds p.mslots ++ [(Slot.bounds, cells.length)] },
+           cells ++ [[lo, hi]])
+    else .error .attributeError
+  | .objects l =>
+    if hasObjects p then
+      -- `self.names = {}` then `self._objects = objects`
+      .ok ({ p with mslots := dropSlot .names (dropSlot .objects p.mslots)
+                                ++ [(Slot.names, cells.length), (Slot.objects, cells.length + 1)] },
+           cells ++ [[], l])
+    else .error .attributeError
+  | .constant b => .ok ({ p with constant := b }, cells)
+  | .precedence n => .ok ({ p with precedence := some n }, cells)
+
+/-- `target.param.x.<slot> = value` -/
 def doSlotSet (w : World) (t : Target) (x : Name) (s : SlotSet) : World × Option Err :=
   match locate w t x with
   | .error e => (w, some e)
   | .ok (w1, loc, p) =>
-    match s with
-    | .boundsTup b =>
-      if hasBounds p then
-        (w1.writeP loc { p with boundsTup := b, mslots := dropSlot .bounds p.mslots }, none)
-      else (w1, some .attributeError)
-    | .boundsList lo hi =>
-      if hasBounds p then
-        let c := w1.cells.length
-        (({ w1 with cells := w1.cells ++ [[lo, hi]] }).writeP loc
-            { p with boundsTup := none, mslots := dropSlot .bounds p.mslots ++ [(Slot.bounds, c)] }, none)
-      else (w1, some .attributeError)
-    | .objects l =>
-      if hasObjects p then
-        -- `self.names = {}` then `self._objects = objects`
-        let c := w1.cells.length
-        (({ w1 with cells := w1.cells ++ [[], l] }).writeP loc
-            { p with mslots := dropSlot .names (dropSlot .objects p.mslots)
-                                ++ [(Slot.names, c), (Slot.objects, c + 1)] }, none)
-      else (w1, some .attributeError)
-    | .constant b => (w1.writeP loc { p with constant := b }, none)
-    | .precedence n => (w1.writeP loc { p with precedence := some n }, none)
+    match applySlotSet w1.cells p s with
+    | .error e => (w1, some e)
+    | .ok (p', cells') => (({ w1 with cells := cells' }).writeP loc p', none)
 
-/-- in-place mutation of a container slot of `target.param.x` -/
+/-- in-place mutation of a container slot of Parameter object `p`: the new heap -/
+def applySlotMut (cells : List (List Int)) (p : PObj) : SlotMut → Except Err (List (List Int))
+  | .objectsAppend n =>
+    match hasObjects p, aget p.mslots .objects with
+    | true, some c => .ok (cells.set c (deref cells c ++ [n]))
+    | true, none => .error .unsupported
+    | false, _ => .error .attributeError
+  | .namesInsert n =>
+    match hasObjects p, aget p.mslots .names with
+    | true, some c =>
+      if n ∈ deref cells c then .ok cells else .ok (cells.set c (deref cells c ++ [n]))
+    | true, none => .error .unsupported
+    | false, _ => .error .attributeError
+  | .boundsSetHi n =>
+    if hasBounds p then
+      match aget p.mslots .bounds with
+      | some c =>
+        match deref cells c with
+        | [lo, _] => .ok (cells.set c [lo, n])
+        | _ => .error .unsupported
+      | none => .error .typeError      -- tuple / None do not support item assignment
+    else .error .attributeError
+
+/-- `target.param.x.objects.append(v)`, `.names['k<v>'] = v`, `.bounds[1] = v` -/
 def doSlotMut (w : World) (t : Target) (x : Name) (m : SlotMut) : World × Option Err :=
   match locate w t x with
   | .error e => (w, some e)
   | .ok (w1, _, p) =>
-    match m with
-    | .objectsAppend n =>
-      match hasObjects p, aget p.mslots .objects with
-      | true, some c => ({ w1 with cells := w1.cells.set c (deref w1.cells c ++ [n]) }, none)
-      | true, none => (w1, some .unsupported)
-      | false, _ => (w1, some .attributeError)
-    | .namesInsert n =>
-      match hasObjects p, aget p.mslots .names with
-      | true, some c =>
-        if n ∈ deref w1.cells c then (w1, none)
-        else ({ w1 with cells := w1.cells.set c (deref w1.cells c ++ [n]) }, none)
-      | true, none => (w1, some .unsupported)
-      | false, _ => (w1, some .attributeError)
-    | .boundsSetHi n =>
-      if hasBounds p then
-        match aget p.mslots .bounds with
-        | some c =>
-          match deref w1.cells c with
-          | [lo, _] => ({ w1 with cells := w1.cells.set c [lo, n] }, none)
-          | _ => (w1, some .unsupported)
-        | none => (w1, some .typeError)      -- tuple / None do not support item assignment
-      else (w1, some .attributeError)
+    match applySlotMut w1.cells p m with
+    | .error e => (w1, some e)
+    | .ok cells' => ({ w1 with cells := cells' }, none)
 
 def step (w : World) : Op → World × Option Err
   | .mkClass mro decls => doMkClass w mro decls
